@@ -481,6 +481,22 @@ def run_property(pid, tier, only=None, jobs=16, seed=0, budget_s=None):
     return finish(pid, tier, seed, harnesses, agg, funcs, wall, timed_out, kf)
 
 
+def _promote_native(h, nat, inputs, kf, pid, seen, fresh):
+    """The symbolic run and the native run of one concrete input disagree (a harness error: the engine could not follow
+    the code) - but when the NATIVE run of the harness fails, the real code has just been shown to break the property on
+    that input, whatever the engine thought. It is reported as a violation as well (never for a harness that carries a
+    known finding: the region test needs the symbolic path)."""
+    if not nat or nat[0] not in ("violation", "escaped"):
+        return
+    if any(k["property"] == pid and (k["harness"] == h.name or (k.get("harness_prefix") and h.name.startswith(k["harness"])))
+           for k in kf.get("findings", [])):
+        return
+    site = (str(nat[1]) + ":(native replay)") if nat[0] == "violation" else "escaped:" + str(nat[1])
+    if any(hh is h and vv["site"] == site for hh, vv in fresh):
+        return
+    fresh.append((h, dict(site=site, known=None, inputs=inputs, native=list(nat), confirmed=True)))
+
+
 def finish(pid, tier, seed, harnesses, agg, funcs, wall, timed_out, kf):
     out_lines = []
     exit_code = 0
@@ -504,6 +520,8 @@ def finish(pid, tier, seed, harnesses, agg, funcs, wall, timed_out, kf):
             inconclusive.append(f"{h.name}: {a['errors'][0]['error']} (case {a['errors'][0]['case']})")
         if a["mismatches"]:
             harness_errors.append(f"{h.name}: witness replay mismatch {json.dumps(a['mismatches'][0])[:600]}")
+            for mm in a["mismatches"][:50]:
+                _promote_native(h, mm.get("native"), mm["inputs"], kf, pid, None, fresh)
         # vacuity: at least one path, every assert site of the harness reached
         if st.get("paths", 0) == 0 and not a["errors"]:
             inconclusive.append(f"{h.name}: vacuous (no feasible path)")
@@ -521,6 +539,7 @@ def finish(pid, tier, seed, harnesses, agg, funcs, wall, timed_out, kf):
             key = (h.name, v["site"])
             if not v["confirmed"]:
                 harness_errors.append(f"{h.name}: counterexample did not reproduce natively: {json.dumps(v)[:600]}")
+                _promote_native(h, v.get("native"), v["inputs"], kf, pid, seen, fresh)
                 continue
             if key in seen:
                 continue
